@@ -1,6 +1,7 @@
 import CpModel.Proto
 import CpModel.Reader
 import CpModel.ReaderSink
+import CpModel.ReaderProcess
 /-!
   Driver for C05 (SizedReader).  One case per line, seven space-separated fields:
 
@@ -16,8 +17,20 @@ import CpModel.ReaderSink
   out = `b:<hex>` | `l:<hex>/<hex>/…` | `stop` | `e413` | `fuel` | `w:<hex>` (sink content after a
   successful sink operation) | `y:<hex>/<hex>/…` (lines yielded) | `e413+<hex>` (413, and what the
   sink received / the iterator yielded before it).
+
+  Lines that start with a keyword exercise `CpModel.ReaderProcess` (text fields: decimal code points joined by `.`,
+  `-` = empty, `N` = None):
+
+    len CLEN TE                              → `N` | `<int>`                        (`Entity.__init__`)
+    dec LEVELS METHOD CLEN TE TRAILER CTYPE  → `skip` | `e411` | `wrap len= mb= bs= tr= key= fn=`
+        LEVELS = `-` or levels joined by `/`, each `_` or entries joined by `,`: `prb=T|F`, `mwb=<text>|<text>…`,
+        `mb=N|<n>`, `bs=<n>`, `len=N|<int>`; the processor table is `Gen.C05.requestBodyProcessors`
+    trail ONCE HAST HASM MAXSIZE FAILAT NFIN LINES → `<ok|e413|malformed|other> read=<0|1> tr=<k>:<v>;…|N left=<n>`
+        LINES = `-` or hex lines joined by `,` (what follows the body on the connection)
+    trun LENGTH BUFSIZE BODYHEX FRAG OPS ONCE HAST HASM MAXSIZE FAILAT LINES
+                                             → `<out>,… T=<…as trail…>` (`te:<kind>` = aborted by the trailer)
 -/
-open CpModel CpModel.Reader
+open CpModel CpModel.Reader CpModel.ReaderProcess
 
 namespace Drv.C05
 
@@ -71,6 +84,106 @@ def step (line : String) : String :=
     | _, _, _, _, _, _, _ => "bad-op"
   | _ => "bad-op"
 
+/-! ### ReaderProcess -/
+
+def optText? (s : String) : Option (Option Text) :=
+  if s == "N" then some none else (Proto.untext? s).map some
+
+def parseInt? (s : String) : Option Int :=
+  match s.toList with
+  | '-' :: ds => (String.ofList ds).toNat?.map fun n => - Int.ofNat n
+  | _ => s.toNat?.map Int.ofNat
+
+def parseEntry (e : String) : Option (Text × CfgVal) :=
+  match e.splitOn "=" with
+  | ["prb", "T"] => some (K_PRB, .bool true)
+  | ["prb", "F"] => some (K_PRB, .bool false)
+  | ["mwb", v] => ((v.splitOn "|").filter (· ≠ "")).mapM Proto.untext? |>.map fun l => (K_MWB, .strs l)
+  | ["mb", "N"] => some (K_MAXBYTES, .none_)
+  | ["mb", n] => n.toNat?.map fun k => (K_MAXBYTES, .nat k)
+  | ["bs", n] => n.toNat?.map fun k => (K_BUFSIZE, .nat k)
+  | ["len", "N"] => some (K_LENGTH, .none_)
+  | ["len", n] => (parseInt? n).map fun k => (K_LENGTH, .int k)
+  | _ => none
+
+def parseLevels (s : String) : Option (List (List (Text × CfgVal))) :=
+  if s == "-" then some [] else
+  (s.splitOn "/").mapM fun l => if l == "_" then some [] else (l.splitOn ",").mapM parseEntry
+
+def showOptInt : Option Int → String
+  | none => "N"
+  | some i => toString i
+
+def showDecision : Decision → String
+  | .skipped => "skip"
+  | .err411 => "e411"
+  | .wrapped len mb bs tr key fn =>
+    s!"wrap len={showOptInt len} mb={Proto.showOptNat mb} bs={bs} tr={if tr then 1 else 0} " ++
+    s!"key={match key with | none => "N" | some k => Proto.text k} fn={Proto.text fn}"
+
+def parseBool? (s : String) : Option Bool :=
+  if s == "1" then some true else if s == "0" then some false else none
+
+def parseLines (s : String) : Option (List Bytes) :=
+  if s == "-" then some [] else (s.splitOn ",").mapM Proto.unhex?
+
+def showTErr : TErr → String
+  | .err413 => "e413" | .malformed => "malformed" | .other => "other"
+
+def showTr : Option Tr → String
+  | none => "N"
+  | some [] => "-"
+  | some tr => ";".intercalate (tr.map fun (k, v) => Proto.hex k ++ ":" ++ Proto.hex v)
+
+def showT (e : Option TErr) (t : TState) : String :=
+  s!"{match e with | none => "ok" | some x => showTErr x} read={if t.read then 1 else 0} " ++
+  s!"tr={showTr t.trailers} left={t.tail.length}"
+
+def showOutT : OutT → String
+  | .op o => showOutX o
+  | .trailerErr e => "te:" ++ showTErr e
+
+def stepProc (fs : List String) : Option String :=
+  match fs with
+  | ["len", c, t] =>
+    match optText? c, optText? t with
+    | some c, some t => some (showOptInt (entityLength c t))
+    | _, _ => none
+  | ["dec", lv, m, c, t, tr, ct] =>
+    match parseLevels lv, Proto.untext? m, optText? c, optText? t, parseBool? tr, optText? ct with
+    | some lv, some m, some c, some t, some tr, some ct =>
+      some (showDecision (decision Gen.C05.requestBodyProcessors (effective lv)
+        { method := m, clen := c, te := t, trailer := tr, ctype := ct }))
+    | _, _, _, _, _, _ => none
+  | ["trail", once, ht, hm, ms, fa, n, ls] =>
+    match parseBool? once, parseBool? ht, parseBool? hm, parseBool? ms, Proto.optNat? fa, n.toNat?, parseLines ls with
+    | some once, some ht, some hm, some ms, some fa, some n, some ls =>
+      let t0 : TState := { hasTrailers := ht, hasMethod := hm, read := false, trailers := none, tail := ls,
+                           failAt := fa, maxSize := ms }
+      let (e, t) := finishN Gen.C05.commaSeparatedHeaders once n t0
+      some (showT e t)
+    | _, _, _, _, _, _, _ => none
+  | ["trun", l, b, body, frag, ops, once, ht, hm, ms, fa, ls] =>
+    match Proto.optNat? l, b.toNat?, Proto.unhex? body, parseNats frag, parseOps ops, parseBool? once, parseBool? ht,
+          parseBool? hm, parseBool? ms, Proto.optNat? fa, parseLines ls with
+    | some l, some b, some body, some frag, some ops, some once, some ht, some hm, some ms, some fa, some ls =>
+      let cfg : Cfg := { length := l, maxbytes := none, bufsize := b }
+      let t0 : TState := { hasTrailers := ht, hasMethod := hm, read := false, trailers := none, tail := ls,
+                           failAt := fa, maxSize := ms }
+      let (outs, s, t) := runT cfg Gen.C05.commaSeparatedHeaders once (init body frag none) t0 ops
+      let o := if outs.isEmpty then "-" else ",".intercalate (outs.map showOutT)
+      some s!"{o} off={s.off} T={showT none t}"
+    | _, _, _, _, _, _, _, _, _, _, _ => none
+  | _ => none
+
+def stepAll (line : String) : String :=
+  match Proto.fields line with
+  | kw :: rest =>
+    if kw == "len" || kw == "dec" || kw == "trail" || kw == "trun" then
+      (stepProc (kw :: rest)).getD "bad-op"
+    else step line
+  | [] => "bad-op"
+
 end Drv.C05
 
-def main : IO Unit := CpModel.Proto.runDriver Drv.C05.step
+def main : IO Unit := CpModel.Proto.runDriver Drv.C05.stepAll
